@@ -64,11 +64,16 @@ class BlockNet(Engine):
                  'delay': rng.choice([0.0, 0.05, 2.0, 30.0, 3600.0, 7199.0, 7201.0]), 'via': rng.choice(['wire', 'wire', 'object']),
                  'clock': rng.choice(['default', 'default', 'cur_time']), 'ntime_offset': rng.choice([-7200, -1, 0, 1, -86400, 600, 7199, 7200]),
                  'recheck_after': rng.choice([None, None, 1.0, 2.0, 7200.0, 86400.0]), 'r': [rng.randrange(1 << 30) for _ in range(6)],
-                 'mutable_txs': rng.random() < 0.3, 'pow': rng.random() < 0.7}
+                 'mutable_txs': rng.random() < 0.3, 'pow': rng.random() < 0.7,
+                 'inject_delta': rng.choice([0.0, 0.0, -86400.0, 86400.0, 7200.0, -7200.0, 10.0 ** 7])}
             steps.append({'t': t, 'prio': rng.randint(0, 2), 'party': miner, 'op': 'mine', 'args': a})
             if rng.random() < 0.25:
                 steps.append({'t': t + rng.choice([0.0, 1.0, 100.0]), 'prio': rng.randint(0, 2), 'party': rng.randrange(nparties), 'op': 'clock',
                               'args': {'delta': rng.choice([-7200.0, -1.0, 1.0, 3600.0, 7200.0, 86400.0, -86400.0])}})
+            if rng.random() < 0.25:
+                steps.append({'t': t, 'prio': rng.randint(0, 2), 'party': validator, 'op': 'genesis',
+                              'args': {'of': rng.choice(RC.CHAINS), 'clock': rng.choice(['default', 'cur_time']), 'age': rng.choice([0, 7199, 7200, 7201, 10 ** 8]),
+                                       'tweak': rng.choice(['none', 'none', 'none', 'bits+1', 'bits-1', 'nonce+1'])}})
             if rng.random() < 0.2:
                 steps.append({'t': t, 'prio': rng.randint(0, 2), 'party': validator, 'op': 'checktx',
                               'args': {'tx': self.gen_valid_tx(rng), 'rule': rng.choice(['none', 'tx-vin-empty', 'tx-vout-empty', 'value-negative', 'value-toolarge', 'total-toolarge',
@@ -143,6 +148,8 @@ class BlockNet(Engine):
             self._mine(i, a)
         elif st['op'] == 'checktx':
             self._checktx(i, st['party'] % len(self.parties), a)
+        elif st['op'] == 'genesis':
+            self._genesis(i, st['party'] % len(self.parties), a)
 
     # ---- block building (reference builder)
     def _build(self, a, chain, check_time):
@@ -422,6 +429,8 @@ class BlockNet(Engine):
         chain = self.parties[miner]['chain']
         # boundary generation device: the planned check time at the validator
         check_time = self.clock.base + self.q.now + a['delay'] + self.parties[validator]['skew']
+        if a['clock'] == 'cur_time':
+            check_time += a.get('inject_delta', 0.0)
         blk, do_pow = self._build(a, chain, check_time)
         payload = None
         obj = None
@@ -469,6 +478,12 @@ class BlockNet(Engine):
             block = obj
             spec = blk
         now = self._now(validator)
+        if a['clock'] == 'cur_time':
+            # the injected time deliberately differs from what the party's wall clock shows: the
+            # argument, not the clock, must decide
+            now = now + a.get('inject_delta', 0.0)
+            if a.get('inject_delta'):
+                ctx.fault('injected-time-differs-from-clock')
         want = BR.check_block(spec, now, t['pow_limit'], t['max_money'], do_pow=do_pow)
         reads0 = self.clock.reads
         try:
@@ -507,6 +522,51 @@ class BlockNet(Engine):
         ctx.log(self.q.now, validator, 'check', [a['rule'], nth], 'accept' if got is None else 'reject:' + type(exc).__name__)
         if nth == 1:
             self.ctx.nontrivial = True
+
+    def _genesis(self, i, p, a):
+        """A chain's genesis block (real proof of work; signet's target equals signet's limit exactly)
+        checked by a validator on any chain, `age` seconds before/after its timestamp."""
+        ctx, C = self.ctx, self.C
+        self._enter(p)
+        chain = self.parties[p]['chain']
+        t = RC.TABLE[chain]
+        P = {'mainnet': C.CoreMainParams, 'testnet': C.CoreTestNetParams, 'signet': C.CoreSigNetParams, 'regtest': C.CoreRegTestParams}[a['of']]
+        raw = P.GENESIS_BLOCK.serialize()
+        spec = RW.dec_block(RW.Reader(raw))
+        if a['tweak'] == 'bits+1':
+            spec['bits'] += 1
+        elif a['tweak'] == 'bits-1':
+            spec['bits'] -= 1
+        elif a['tweak'] == 'nonce+1':
+            spec['nonce'] = (spec['nonce'] + 1) & 0xffffffff
+        block = C.CBlock.deserialize(RW.enc_block(spec))
+        now = float(spec['time'] - a['age'])
+        want = BR.check_block(spec, now, t['pow_limit'], t['max_money'], do_pow=True)
+        if a['clock'] == 'default':
+            self.clock.fixed = now
+        try:
+            if a['clock'] == 'cur_time':
+                C.CheckBlock(block, cur_time=now)
+            else:
+                C.CheckBlock(block)
+            got, exc = None, None
+        except C.ValidationError as e:
+            got, exc = 'reject', e
+        except Exception as e:
+            got, exc = 'crash', e
+        finally:
+            self.clock.fixed = None
+        det = dict(rule='genesis:' + a['of'], chain=chain, tweak=a['tweak'], expected=want)
+        ctx.fault('genesis-under-' + ('own-chain' if chain == a['of'] else 'other-chain'))
+        if got == 'crash':
+            ctx.check(False, 'C16.errfamily', 'CheckBlock on the %s genesis block raised %s' % (a['of'], type(exc).__name__), exc=type(exc).__name__, **det)
+            return
+        tag = 'C16.time' if want == 'time-too-new' else ('C16.block.' + (want or 'valid'))
+        if want is None:
+            ctx.check(got is None, tag, '%s genesis block (%s) rejected under %s: %s' % (a['of'], a['tweak'], chain, exc), **det)
+        else:
+            ctx.check(got == 'reject', tag, '%s genesis block (%s) violating %s accepted under %s' % (a['of'], a['tweak'], want, chain), **det)
+        ctx.log(self.q.now, p, 'genesis', [a['of'], a['tweak'], a['age']], 'accept' if got is None else 'reject')
 
     def _checktx(self, i, p, a):
         ctx, C = self.ctx, self.C
